@@ -1084,6 +1084,246 @@ func nestOf(s *content.State) (string, int) {
 	return string(sb), len(cl)
 }
 
+// ---------------------------------------------------------------------------
+// The allowed-context table of the SPECIFICATION (ISO 32000 Figure 9 "Graphics objects" and the
+// operator tables), written by hand: Allowed mask (page 1, path 2, text 4, clipping path 8,
+// Type 3 start 16) and the object the operator moves to (0: none).  It is the same table as
+// State.v's op_table (every nesting case is also run through the Coq model and compared, so the
+// two copies cannot drift apart), and it is NOT read from the implementation: the oracle "what
+// the Builder accepted is a valid sequence" judges with this table.
+var specTable = map[string][2]int{
+	"q": {5, 0},
+	"Q": {5, 0},
+	"cm": {1, 0},
+	"w": {5, 0},
+	"J": {5, 0},
+	"j": {5, 0},
+	"M": {5, 0},
+	"d": {5, 0},
+	"ri": {5, 0},
+	"i": {5, 0},
+	"gs": {5, 0},
+	"m": {3, 2},
+	"l": {2, 0},
+	"c": {2, 0},
+	"v": {2, 0},
+	"y": {2, 0},
+	"h": {2, 0},
+	"re": {3, 2},
+	"S": {10, 1},
+	"s": {10, 1},
+	"f": {10, 1},
+	"F": {10, 1},
+	"f*": {10, 1},
+	"B": {10, 1},
+	"B*": {10, 1},
+	"b": {10, 1},
+	"b*": {10, 1},
+	"n": {10, 1},
+	"W": {2, 8},
+	"W*": {2, 8},
+	"BT": {1, 4},
+	"ET": {4, 1},
+	"Tc": {31, 0},
+	"Tw": {31, 0},
+	"Tz": {31, 0},
+	"TL": {31, 0},
+	"Tf": {31, 0},
+	"Tr": {31, 0},
+	"Ts": {31, 0},
+	"Td": {4, 0},
+	"TD": {4, 0},
+	"Tm": {4, 0},
+	"T*": {4, 0},
+	"Tj": {4, 0},
+	"TJ": {4, 0},
+	"'": {4, 0},
+	"\"": {4, 0},
+	"d0": {16, 1},
+	"d1": {16, 1},
+	"CS": {5, 0},
+	"cs": {5, 0},
+	"SC": {5, 0},
+	"SCN": {5, 0},
+	"sc": {5, 0},
+	"scn": {5, 0},
+	"G": {5, 0},
+	"g": {5, 0},
+	"RG": {5, 0},
+	"rg": {5, 0},
+	"K": {5, 0},
+	"k": {5, 0},
+	"sh": {1, 0},
+	"BI": {1, 0},
+	"ID": {1, 0},
+	"EI": {1, 0},
+	"Do": {1, 0},
+	"MP": {5, 0},
+	"DP": {5, 0},
+	"BMC": {5, 0},
+	"BDC": {5, 0},
+	"EMC": {5, 0},
+	"BX": {31, 0},
+	"EX": {31, 0},
+	"%raw%": {31, 0},
+	"%image%": {1, 0},
+}
+
+type specState struct {
+	cur  int    // 1 page, 2 path, 4 text, 8 clipping path, 16 Type 3 start
+	nest []byte // innermost last: 'q', 'T', 'M', 'X'
+	pre2 bool
+}
+
+func (s *specState) pop(k byte) bool {
+	for i := len(s.nest) - 1; i >= 0; i-- {
+		if s.nest[i] == k {
+			s.nest = append(s.nest[:i], s.nest[i+1:]...)
+			return true
+		}
+	}
+	return false
+}
+
+// apply: State.v apply_op.
+func (s *specState) apply(name string) bool {
+	mask, trans := 31, 0
+	switch name {
+	case "q", "Q", "BMC", "BDC", "EMC":
+		mask = 5
+	case "BT":
+		mask = 1
+	case "ET":
+		mask = 4
+	case "BX", "EX":
+		mask = 31
+	default:
+		if e, ok := specTable[name]; ok {
+			mask, trans = e[0], e[1]
+		}
+	}
+	if mask&s.cur == 0 {
+		return false
+	}
+	switch name {
+	case "q":
+		nq := 0
+		for _, c := range s.nest {
+			if c == 'q' {
+				nq++
+			}
+		}
+		if s.pre2 && (s.cur == 4 || nq >= 28) {
+			return false
+		}
+		s.nest = append(s.nest, 'q')
+	case "Q":
+		if s.pre2 && s.cur == 4 {
+			return false
+		}
+		return s.pop('q')
+	case "BT":
+		s.cur = 4
+		s.nest = append(s.nest, 'T')
+	case "ET":
+		if !s.pop('T') {
+			return false
+		}
+		s.cur = 1
+	case "BMC", "BDC":
+		s.nest = append(s.nest, 'M')
+	case "EMC":
+		return s.pop('M')
+	case "BX":
+		s.nest = append(s.nest, 'X')
+	case "EX":
+		return s.pop('X')
+	default:
+		if trans != 0 {
+			s.cur = trans
+		}
+	}
+	return true
+}
+
+// specRun: the index of the first operator the specification's table rejects (-1: none), and
+// the observation line of the model for the sequence (as the driver prints it for NS).
+func specRun(names []content.OpName, pre2 bool) (int, string) {
+	s := &specState{cur: 1, pre2: pre2}
+	rej := -1
+	for i, n := range names {
+		if !s.apply(string(n)) {
+			rej = i
+			break
+		}
+	}
+	cur := map[int]string{1: "page", 2: "path", 4: "text", 8: "clip", 16: "t3start"}[s.cur]
+	nest := string(s.nest)
+	// ClosingOperators: "n" for an open path, then one closer per frame, innermost first
+	nclose := len(s.nest)
+	closed := true
+	if s.cur == 2 || s.cur == 8 {
+		nclose++
+		closed = s.apply("n")
+	}
+	for closed && len(s.nest) > 0 {
+		c := map[byte]string{'q': "Q", 'T': "ET", 'M': "EMC", 'X': "EX"}[s.nest[len(s.nest)-1]]
+		closed = s.apply(c)
+	}
+	closed = closed && len(s.nest) == 0 && s.cur == 1
+	b2s := map[bool]string{true: "1", false: "0"}
+	return rej, fmt.Sprintf("rej=%d cur=%s nest=%s closers=%d closed=%s otherok=1", rej, cur, nest, nclose, b2s[closed])
+}
+
+// builderValid: the operators of a stream the Builder accepted (Err == nil) form a valid
+// sequence by the specification's table.
+func (h *harness) builderValid(ops []content.Operator, v pdf.Version, calls []string) bool {
+	names := make([]content.OpName, len(ops))
+	for i, op := range ops {
+		names[i] = op.Name
+	}
+	h.e.Evaluations++
+	rej, _ := specRun(names, v < pdf.V2_0)
+	if rej < 0 {
+		return true
+	}
+	h.nsig["builder-accepts-invalid"]++
+	if h.nsig["builder-accepts-invalid"] <= 5 {
+		ctx := names[:rej]
+		h.e.Fail("builder-accepts-invalid", fmt.Sprintf("the Builder (version %v) accepts calls %v without error, but the stream is not a valid operator sequence: operator %d (%s) is not allowed after %v (allowed-context table of the specification)", v, calls, rej, names[rej], ctx),
+			map[string]any{"calls": calls, "version": v.String(), "ops": opsRaw(ops), "rejected": rej})
+	}
+	return false
+}
+
+// builderContexts: every Builder call in every object context.
+func (h *harness) builderContexts() {
+	setups := [][]int{{}, {4}, {8}, {8, 15}, {6}, {0}, {4, 6}, {6, 4}, {0, 4}, {10}, {10, 29}}
+	for _, v := range []pdf.Version{pdf.V1_3, pdf.V1_7, pdf.V2_0} {
+		for _, setup := range setups {
+			for k := 0; k <= 38; k++ {
+				b := builder.New(content.Page, nil, v)
+				var calls []string
+				for _, c := range setup {
+					h.bcall(b, c)
+					calls = append(calls, strconv.Itoa(c))
+				}
+				if b.Err != nil {
+					continue
+				}
+				h.bcall(b, k)
+				calls = append(calls, strconv.Itoa(k))
+				h.e.Count(true, fmt.Sprintf("ctx%v%v", v, calls), "builder-contexts")
+				if b.Err != nil {
+					h.e.Dist["builder-contexts:rejected"]++
+					continue
+				}
+				h.builderValid(append([]content.Operator(nil), b.Stream...), v, calls)
+			}
+		}
+	}
+}
+
 // nesting: one operator-name sequence through the real State and the model.
 func (h *harness) nesting(names []content.OpName, pre2 bool, class string) {
 	s := content.NewState(content.Page, nil)
@@ -1134,6 +1374,11 @@ func (h *harness) nesting(names []content.OpName, pre2 bool, class string) {
 		return "0"
 	}
 	h.e.Line("impl.obs", "%s rej=%d cur=%s nest=%s closers=%d closed=%s otherok=1", id, rej, cur, nest, nclose, b2s(closed))
+	// the hand-written table of the specification against the model
+	_, sobs := specRun(names, pre2)
+	id = h.id("S")
+	h.e.Line("cases.txt", "%s NS %d %s", id, p, strings.Join(hs, " "))
+	h.e.Line("impl.obs", "%s %s", id, sobs)
 	h.e.Count(true, fmt.Sprintf("ns%v%v", pre2, names), class)
 }
 
@@ -1448,6 +1693,10 @@ func (h *harness) builderCase() {
 			}
 		}
 	}
+	// what the Builder accepted is a valid sequence by the specification's table
+	if !h.builderValid(ops, v, calls) {
+		return
+	}
 	// the stream re-reads as the operators written
 	h.operators(ops, "builder-output")
 	// it is a valid sequence for a fresh State of the Builder's version, balanced after ClosingOperators
@@ -1687,6 +1936,9 @@ func (h *harness) builderAliasing() {
 	// the caller goes on using its values after the last call
 	for m := 0; m < 12; m++ {
 		mutate()
+	}
+	if !h.builderValid(append([]content.Operator(nil), b.Stream...), v, names) {
+		return
 	}
 	got := opsCanon(b.Stream)
 	if want := opsCanon(ref.Stream); got != want {
@@ -1979,6 +2231,7 @@ func phase1() {
 	// 7. Builder call sequences
 	h.pfx = "b"
 	h.builderScenarios()
+	h.builderContexts()
 	h.pfx = "A"
 	for i := 0; i < e.Pick(1500, 40000); i++ {
 		h.builderAliasing()
